@@ -465,8 +465,15 @@ func (s *Session) onPlay(resp *Response, req *Request) (err error) {
 	return
 }
 
+// httpAuthed reports whether this is a WebSocket session whose user was
+// authenticated by the HTTP token interceptor (authMode is NoneAuth for it:
+// there is no digest challenge, but the user's rights still apply).
+func (s *Session) httpAuthed() bool {
+	return s.wsconn != nil && config.Auth()
+}
+
 func (s *Session) checkPermission(right auth.AccessRight) bool {
-	if s.authMode == auth.NoneAuth {
+	if s.authMode == auth.NoneAuth && !s.httpAuthed() {
 		return true
 	}
 
@@ -514,6 +521,14 @@ func (s *Session) checkAuth(r *Request) (user *auth.User, err error) {
 		s.nonce = security.NewID().MD5()
 		return nil, errors.New("require legal Authorization field")
 	default: // 无需验证
+		if s.httpAuthed() {
+			// the user of the token the WebSocket was opened with, as saved now
+			user := auth.Get(s.wsconn.Username())
+			if user == nil {
+				return nil, errors.New("user not exist")
+			}
+			return user, nil
+		}
 		return nil, nil
 	}
 }
